@@ -28,6 +28,13 @@ var poolSiblings = &hist.Pool{
 	Patterns: []string{"/b", "/c", "/d", "/a", "/*{w}"},
 }
 
+// poolInfix2: keys with two infix catch-alls inside one tree node (nested precomputed sub-nodes),
+// leaves below them.
+var poolInfix2 = &hist.Pool{
+	Methods:  []string{"GET", "FOO"},
+	Patterns: []string{"/*{x}/b/*{y}/c", "/*{x}/b/*{y}/cd", "/*{x}/b/*{y}/c/e", "/*{x}/b/*{y}/cde", "/*{x}/b"},
+}
+
 // pool / probes / serveProbe are switched by usePool before a run.
 var pool = poolPrefix
 
@@ -37,6 +44,13 @@ func usePool(name string) {
 		probes = []probe{{"GET", "/a"}, {"GET", "/b"}, {"GET", "/c"}, {"GET", "/d"}, {"GET", "/z"}, {"GET", "/z/y"}, {"FOO", "/a"}}
 		serveProbe = "/z"
 		prefixes = []string{"/", "/a", "/b", "/*"}
+		return
+	}
+	if name == "infix2" {
+		pool = poolInfix2
+		probes = []probe{{"GET", "/1/b/2/c"}, {"GET", "/1/b/2/cd"}, {"GET", "/1/b/2/c/e"}, {"GET", "/1/b/2/cde"}, {"GET", "/1/b"}, {"GET", "/1/b/2/c/"}, {"FOO", "/a"}}
+		serveProbe = "/1/b/2/cd"
+		prefixes = []string{"/", "/*{x}/b", "/*{x}/b/*{y}/c", "/*{x}/b/*{y}/cd"}
 		return
 	}
 	pool = poolPrefix
@@ -649,6 +663,7 @@ func init() {
 				defer un()
 				runSeq(c, r, "prefixes")
 				runSeq(c, r, "siblings")
+				runSeq(c, r, "infix2")
 			}, Replay: func(c *mc.Ctx, raw json.RawMessage) string {
 				un := mc.DeterministicPools()
 				defer un()
